@@ -65,6 +65,14 @@ def evaluate(ctx, triples, lines, nofault_of):
 def check(ctx, pid=PID, props=PROPS, only_nofault=False):
     ctx.log("proof step")
     pr = ctx.proof_step(props)
+    if pid == "C07":
+        # part 3: the container theorems (B-tree, hash, AVL developments) read at an arbitrary oracle
+        extra = ctx.proof_step("Properties_C07_containers")
+        pr = {"file": pr["file"] + " + " + extra["file"], "theorems": pr["theorems"] + extra["theorems"],
+              "obligations": pr["obligations"] + extra["obligations"], "discharged": pr["discharged"] + extra["discharged"],
+              "ok": pr["ok"] and extra["ok"], "axioms": sorted(set(pr["axioms"] + extra["axioms"])),
+              "log": pr["log"] + extra["log"]}
+        ctx.proof = pr
     ctx.log("proof: %d/%d theorems, ok=%s" % (pr["discharged"], pr["obligations"], pr["ok"]))
     try:
         fc.build(ctx)
